@@ -80,30 +80,56 @@ theorem isReleased_removable {st : Stream} (h : st.isReleased = true) : Removabl
   simp only [Bool.and_eq_true] at h
   exact List.isEmpty_iff.mp h.1.1.1.1.1.1.1.1.2
 
+/-- the part of `transition_after` before the release test -/
+def taPrefix (s : Streams) (id : Nat) (isResetCounted : Bool) : Streams :=
+  let st := s.stream id
+  let s :=
+    if isResetCounted && !st.isPendingResetExpiration then
+      s.modCountsA "self.num_local_reset_streams > 0" Counts.decNumResetStreams
+    else s
+  if st.isClosed then
+    let s := if !st.isPendingResetExpiration then { s with store := s.store.unlink st.id } else s
+    if !st.state.isScheduledReset && st.isCounted then s.decNumStreams id else s
+  else s
+
+/-- the release test of `transition_after` -/
+def releaseStep (s : Streams) (id : Nat) : Streams :=
+  if (s.stream id).isReleased then
+    let s := if (s.stream id).isCounted then s.decNumStreams id else s
+    { s with store := s.store.remove id, recvBufferLeaked := s.recvBufferLeaked + (s.stream id).pendingRecv.length }
+  else s
+
+theorem transitionAfter_eq (s : Streams) (id : Nat) (b : Bool) :
+    s.transitionAfter id b = releaseStep (taPrefix s id b) id := rfl
+
+theorem taPrefix_ev (h : Evolves P N a s.store) (id : Nat) (b : Bool) : Evolves P N a (taPrefix s id b).store := by
+  unfold taPrefix; ev
+
+theorem releaseStep_ev (h : Evolves P N a s.store) (id : Nat) : Evolves P N a (releaseStep s id).store := by
+  unfold releaseStep
+  by_cases hrel : (s.stream id).isReleased = true
+  · simp only [hrel, if_true]
+    rw [stream_eq] at hrel
+    by_cases hc : (s.stream id).isCounted = true
+    · simp only [hc, if_true]
+      simp only [crp_store]
+      refine Evolves.remove (by ev) _ (fun st hg => ?_)
+      rw [Store.get?_mod' _ _ _ (by intro; rfl), if_pos rfl] at hg
+      cases hg0 : s.store.get? id with
+      | none => rw [hg0] at hg; cases hg
+      | some st0 =>
+        rw [hg0] at hg; simp only [Option.map_some, Option.some.injEq] at hg
+        rw [Store.getD'_of_get? hg0] at hrel
+        have := isReleased_removable hrel
+        subst hg; exact this
+    · simp only [hc, Bool.false_eq_true, if_false]
+      refine Evolves.remove h _ (fun st hg => ?_)
+      rw [Store.getD'_of_get? hg] at hrel
+      exact isReleased_removable hrel
+  · simp only [hrel, Bool.false_eq_true, if_false]; exact h
+
 theorem transitionAfter_ev (h : Evolves P N a s.store) (id : Nat) (b : Bool) : Evolves P N a (s.transitionAfter id b).store := by
-  unfold Streams.transitionAfter
-  ev
-  all_goals
-    refine Evolves.remove ?_ _ ?hD
-    case hD =>
-      intro st hg
-      simp only [crp_store] at hg
-      first
-      | (rw [Store.get?_mod' _ _ _ (fun _ => rfl), if_pos rfl] at hg
-         rename_i hrel _
-         simp only [crp_store] at hrel
-         cases hg0 : Store.get? _ id with
-         | none => rw [hg0] at hg; cases hg
-         | some st0 =>
-           rw [hg0] at hg; simp only [Option.map_some, Option.some.injEq] at hg
-           rw [Store.getD'_of_get? hg0] at hrel
-           have := isReleased_removable hrel
-           subst hg; exact this)
-      | (rename_i hrel _
-         simp only [crp_store] at hrel
-         rw [Store.getD'_of_get? hg] at hrel
-         exact isReleased_removable hrel)
-    ev
+  rw [transitionAfter_eq]; exact releaseStep_ev (taPrefix_ev h id b) id
 macro_rules | `(tactic| ev_step) => `(tactic| with_reducible apply transitionAfter_ev)
 
 theorem scheduleSend_ev (h : Evolves P N a s.store) (id : Nat) : Evolves P N a (s.scheduleSend id).store := by
